@@ -298,6 +298,15 @@ func vfC04Render(v interface{}) string {
 			return "null"
 		}
 		return "[" + vfC04Join(*x) + "]"
+	case *[]byte:
+		return "b:" + vfC04Join(vfC04B2I(*x)) // a []byte destination cannot tell null from empty
+	case *map[int]int:
+		if *x == nil {
+			return "null"
+		}
+		return vfC04RenderMap(*x)
+	case map[int]int:
+		return vfC04RenderMap(x)
 	case int:
 		return strconv.Itoa(x)
 	case string:
@@ -313,8 +322,25 @@ func vfC04Render(v interface{}) string {
 	return vfC04Ascii(fmt.Sprintf("?%s:%v", rv.Type(), v))
 }
 
+func vfC04RenderMap(m map[int]int) string {
+	keys := make([]int, 0, len(m))
+	for k := range m {
+		keys = append(keys, k)
+	}
+	sort.Ints(keys)
+	p := make([]string, len(keys))
+	for i, k := range keys {
+		p[i] = strconv.Itoa(k) + ":" + strconv.Itoa(m[k])
+	}
+	return "{" + strings.Join(p, ",") + "}"
+}
+
 func vfC04Dest(kind string) interface{} {
 	switch kind {
+	case "blob":
+		return new([]byte)
+	case "map_int_int":
+		return new(map[int]int)
 	case "int":
 		return new(*int)
 	case "text":
@@ -428,15 +454,34 @@ func vfC04Consume(which string, plan []vfC04Plan, open func() (*Iter, *framer, e
 		if e := sc.Err(); e != nil && cerr == nil {
 			cerr = e
 		}
+	case "c_keepscan":
+		// new destinations for every row; they are only looked at after the last row was read
+		kept := [][]interface{}{}
+		for n := 0; n < limit; n++ {
+			ds := vfC04Dests(plan, true)
+			if !iter.Scan(ds...) {
+				break
+			}
+			kept = append(kept, ds)
+		}
+		cerr = iter.err
+		for _, ds := range kept {
+			rows = append(rows, vfC04RowOut(ds, true))
+		}
 	case "c_mapscan":
+		// a new map per row (as documented); the maps are only looked at after the last row
+		kept := []map[string]interface{}{}
 		for n := 0; n < limit; n++ {
 			m := map[string]interface{}{}
 			if !iter.MapScan(m) {
 				break
 			}
-			rows = append(rows, vfC04MapOut(m))
+			kept = append(kept, m)
 		}
 		cerr = iter.err
+		for _, m := range kept {
+			rows = append(rows, vfC04MapOut(m))
+		}
 	case "c_slicemap":
 		ms, err := iter.SliceMap()
 		cerr = err
@@ -456,7 +501,7 @@ func vfC04Consume(which string, plan []vfC04Plan, open func() (*Iter, *framer, e
 
 const vfC04MaxRows = 64
 
-var vfC04Consumers = []string{"c_rawscan", "c_rawscanner", "c_ptrscan", "c_ptrscanner", "c_mapscan", "c_slicemap"}
+var vfC04Consumers = []string{"c_rawscan", "c_rawscanner", "c_ptrscan", "c_ptrscanner", "c_keepscan", "c_mapscan", "c_slicemap"}
 
 func vfC04IsTyped(which string) bool { return which != "c_rawscan" && which != "c_rawscanner" }
 
